@@ -276,6 +276,27 @@ def cli(ctx):
             if not (outs[0] == outs[1] == outs[2]):
                 ctx.violation("rg --mmap / --no-mmap / stdin print different results",
                               dict(kind="cli", flags=flags, pattern=pat, encoding=enc, data=repr(data), outs=[repr(o) for o in outs]))
+    # an input much larger than the 64 KiB buffers, and a pattern anchored at the start of the haystack (in line mode every
+    # line is its own haystack, whatever window of the file a strategy happens to hold)
+    big = os.path.join(vlib.CACHE, "c02_big_%d" % os.getpid())
+    with open(big, "wb") as fh:
+        for k in range(40000):
+            fh.write(b"%05d\n" % k if k % 3 else b"x%04d\n" % k)
+    try:
+        for pat in ("\\A[0-9]+", "\\A[0-9]+$", "[0-9]+\\z"):
+            base = [vlib.RG, "--no-config", "--color", "never", "-c", "-I", "-e", pat]
+            outs = []
+            for mode in ("--mmap", "--no-mmap"):
+                p = subprocess.run(base + [mode, big], stdin=subprocess.DEVNULL, stdout=subprocess.PIPE, stderr=subprocess.PIPE)
+                outs.append((p.returncode, p.stdout))
+            p = subprocess.run(base + ["-"], stdin=open(big, "rb"), stdout=subprocess.PIPE, stderr=subprocess.PIPE)
+            outs.append((p.returncode, p.stdout))
+            runs += 3
+            if not (outs[0] == outs[1] == outs[2]):
+                ctx.violation("a 230 KB file searched for a haystack-anchored pattern gives different counts through --mmap / --no-mmap / stdin",
+                              dict(kind="cli-big", pattern=pat, outs=[repr(o) for o in outs]))
+    finally:
+        os.remove(big)
     # files whose stat() size says nothing about their content (procfs): by path (mmap or not) and through stdin
     for pf, pat in (("/proc/version", "Linux"), ("/proc/filesystems", "proc"), ("/proc/self/status", "Name")):
         try:
